@@ -37,16 +37,14 @@ theorem convertToBooleanString_code_eq_model (parseInt : Str → Except PyErr In
   simp only [link_2, run, convertToBooleanString_ast]
   rcases v with _ | s | n | b | ws | i | w
   case str =>
-    py_eval [Conv.convertToBooleanString, str]
-    by_cases h1 : lower s = ['f', 'a', 'l', 's', 'e'] <;> by_cases h2 : lower s = ['0'] <;> simp [h1, h2]
+    by_cases h1 : lower s = ['f', 'a', 'l', 's', 'e'] <;> by_cases h2 : lower s = ['0'] <;>
+      py_eval [Conv.convertToBooleanString, str, h1, h2]
   case int =>
-    py_eval [Conv.convertToBooleanString, str]
-    by_cases h : n = 0 <;> simp [h]
+    by_cases h : n = 0 <;> py_eval [Conv.convertToBooleanString, str, h]
   case bool =>
     cases b <;> py_eval [Conv.convertToBooleanString, str]
   case tokens =>
-    py_eval [Conv.convertToBooleanString, str]
-    by_cases h : ws = [] <;> simp [h]
+    by_cases h : ws = [] <;> py_eval [Conv.convertToBooleanString, str, h]
   all_goals py_eval [Conv.convertToBooleanString, str]
 
 /-- `convertToBooleanString()` — the default argument. -/
@@ -65,16 +63,240 @@ theorem convertBooleanStringToBoolean_code_eq_model (parseInt : Str → Except P
   case str =>
     rcases s with _ | ⟨c, r⟩
     · py_eval [Conv.convertBooleanStringToBoolean, str]
-    · py_eval [Conv.convertBooleanStringToBoolean, str]
-      by_cases h : lower (c :: r) = ['f', 'a', 'l', 's', 'e'] <;> simp [h]
+    · by_cases h : lower (c :: r) = ['f', 'a', 'l', 's', 'e'] <;> py_eval [Conv.convertBooleanStringToBoolean, str, h]
   case int =>
-    py_eval [Conv.convertBooleanStringToBoolean, str]
-    by_cases h : n = 0 <;> simp [h]
+    by_cases h : n = 0 <;> py_eval [Conv.convertBooleanStringToBoolean, str, h]
   case bool =>
     cases b <;> py_eval [Conv.convertBooleanStringToBoolean, str]
   case tokens =>
-    py_eval [Conv.convertBooleanStringToBoolean, str]
-    by_cases h : ws = [] <;> simp [h]
+    by_cases h : ws = [] <;> py_eval [Conv.convertBooleanStringToBoolean, str, h]
   all_goals py_eval [Conv.convertBooleanStringToBoolean, str]
+
+/-- `convertToPositiveInt(v, d)` for every value `d` of the default (returned as is, never raised). -/
+theorem convertToPositiveInt_code_eq_model (parseInt : Str → Except PyErr Int) (v : PyV) (invalid : Lit) :
+    runModule parseInt conversions "convertToPositiveInt" [.py v, .py invalid.toPy]
+      = .ok (.py (Conv.convertToPositiveInt parseInt v invalid)) := by
+  simp only [link_4, run, convertToPositiveInt_ast, Conv.convertToPositiveInt]
+  generalize invalid.toPy = d
+  rcases v with _ | s | n | b | ws | i | w
+  case str =>
+    cases h : parseInt s with
+    | error e => py_eval [pyInt, h]
+    | ok n => by_cases hn : n < 0 <;> py_eval [pyInt, h, hn]
+  case int =>
+    by_cases hn : n < 0 <;> py_eval [pyInt, hn]
+  case bool =>
+    cases b <;> py_eval [pyInt]
+  all_goals py_eval [pyInt]
+
+/-- `convertToPositiveInt(v)` — the default `invalidDefault=0`. -/
+theorem convertToPositiveInt_code_default (parseInt : Str → Except PyErr Int) (v : PyV) :
+    runModule parseInt conversions "convertToPositiveInt" [.py v]
+      = .ok (.py (Conv.convertToPositiveInt parseInt v (.int 0))) := by
+  have h := convertToPositiveInt_code_eq_model parseInt v (.int 0)
+  simp only [link_4, run, convertToPositiveInt_ast] at h ⊢
+  simpa [bindArgs, eval, Lit.toPy] using h
+
+/-- `_handleInvalid(x)` for every argument: an exception instance or class is raised, anything else returned. -/
+theorem handleInvalid_code (parseInt : Str → Except PyErr Int) (x : Val) :
+    runModule parseInt conversions "_handleInvalid" [x] = handleInvalidV x := by
+  rw [link_5, handleInvalid_run]
+
+/-- `_handleInvalid(invalidDefault)` is the hand model's `handleInvalid`. -/
+theorem handleInvalid_code_eq_model (parseInt : Str → Except PyErr Int) (inv : Inv) :
+    runModule parseInt conversions "_handleInvalid" [ofInv inv] = liftPy (Conv.handleInvalid inv) := by
+  rw [handleInvalid_code, handleInvalidV_ofInv]
+
+/-- `convertPossibleValues(v, possibleValues, invalidDefault, emptyValue)` -/
+theorem convertPossibleValues_code_eq_model (parseInt : Str → Except PyErr Int) (v : PyV) (ms : List String) (inv : Inv)
+    (emp : Emp) :
+    runModule parseInt conversions "convertPossibleValues" [.py v, ofMembers ms, ofInv inv, ofEmp emp]
+      = liftPy (Conv.convertPossibleValues v ms inv emp) := by
+  simp only [link_6, run, convertPossibleValues_ast]
+  by_cases hv : v = .none
+  · subst hv
+    cases emp with
+    | val l =>
+      simp only [ofEmp, Conv.convertPossibleValues, handleEmpty, liftPy]
+      generalize l.toPy = d
+      py_eval
+    | invalid =>
+      simp only [ofEmp, Conv.convertPossibleValues, handleEmpty, ← handleInvalidV_ofInv]
+      cases hr : handleInvalidV (ofInv inv) <;> py_eval [hr]
+  · rw [possible_ne_none v hv]
+    by_cases ht : lower (tostr v) = []
+    · rw [if_pos ht]
+      cases emp with
+      | val l =>
+        simp only [ofEmp, handleEmpty, liftPy]
+        generalize l.toPy = d
+        py_eval [hv, ht]
+      | invalid =>
+        simp only [ofEmp, handleEmpty, ← handleInvalidV_ofInv]
+        cases hr : handleInvalidV (ofInv inv) <;> py_eval [hr, hv, ht]
+    · rw [if_neg ht]
+      by_cases hm : String.ofList (lower (tostr v)) ∈ ms
+      · rw [if_pos (by simpa using hm)]
+        py_eval [hv, ht, hm, liftPy]
+      · rw [if_neg (by simpa using hm), ← handleInvalidV_ofInv]
+        cases hr : handleInvalidV (ofInv inv) <;> py_eval [hr, hv, ht, hm]
+
+/-- `convertToIntRange(v, minValue, maxValue, invalidDefault, emptyValue)` — bounds `None` or an integer. -/
+theorem convertToIntRange_code_eq_model (parseInt : Str → Except PyErr Int) (hpi : ValueErrorOnly parseInt) (v : PyV)
+    (lo hi : Option Int) (inv : Inv) (emp : Emp) :
+    runModule parseInt conversions "convertToIntRange" [.py v, ofOptInt lo, ofOptInt hi, ofInv inv, ofEmp emp]
+      = liftPy (Conv.convertToIntRange parseInt v lo hi inv emp) := by
+  simp only [link_7, run, convertToIntRange_ast, Conv.convertToIntRange]
+  by_cases he : isNoneOrEmpty v = true
+  · rw [if_pos he]
+    rcases isNoneOrEmpty_true v he with rfl | rfl <;> cases emp with
+    | val l =>
+      simp only [ofEmp, handleEmpty, liftPy]
+      generalize l.toPy = d
+      py_eval
+    | invalid =>
+      simp only [ofEmp, handleEmpty, ← handleInvalidV_ofInv]
+      cases hr : handleInvalidV (ofInv inv) <;> py_eval [hr]
+  · rw [if_neg he]
+    obtain ⟨h1, h2⟩ := isNoneOrEmpty_false v (by simpa using he)
+    have h3 := pyEqV_nil_of_ne v h2
+    generalize hr : pyInt parseInt v = r
+    cases r with
+    | error e =>
+      rcases pyInt_error parseInt hpi v e hr with rfl | rfl
+      · simp only [← handleInvalidV_ofInv]
+        cases hi' : handleInvalidV (ofInv inv) <;> py_eval [h1, h3, hr, hi']
+      · py_eval [h1, h3, hr, liftPy]
+    | ok n =>
+      rcases lo with _ | l
+      · rcases hi with _ | h
+        · py_eval [h1, h3, hr, ofOptInt, liftPy]
+        · by_cases hh : n > h
+          · cases hi' : handleInvalidV (ofInv inv) <;> py_eval [h1, h3, hr, hi', ← handleInvalidV_ofInv, ofOptInt, hh]
+          · py_eval [h1, h3, hr, ofOptInt, liftPy, hh]
+      · by_cases hl : n < l
+        · cases hi' : handleInvalidV (ofInv inv) <;> py_eval [h1, h3, hr, hi', ← handleInvalidV_ofInv, ofOptInt, hl]
+        · rcases hi with _ | h
+          · py_eval [h1, h3, hr, ofOptInt, liftPy, hl]
+          · by_cases hh : n > h
+            · cases hi' : handleInvalidV (ofInv inv) <;> py_eval [h1, h3, hr, hi', ← handleInvalidV_ofInv, ofOptInt, hl, hh]
+            · py_eval [h1, h3, hr, ofOptInt, liftPy, hl, hh]
+
+/-- `convertToIntRangeCapped(v, minValue, maxValue, invalidDefault, emptyValue)` — bounds `None` or an integer. -/
+theorem convertToIntRangeCapped_code_eq_model (parseInt : Str → Except PyErr Int) (hpi : ValueErrorOnly parseInt) (v : PyV)
+    (lo hi : Option Int) (inv : Inv) (emp : Emp) :
+    runModule parseInt conversions "convertToIntRangeCapped" [.py v, ofOptInt lo, ofOptInt hi, ofInv inv, ofEmp emp]
+      = liftPy (Conv.convertToIntRangeCapped parseInt v lo hi inv emp) := by
+  simp only [link_8, run, convertToIntRangeCapped_ast, Conv.convertToIntRangeCapped]
+  by_cases he : isNoneOrEmpty v = true
+  · rw [if_pos he]
+    rcases isNoneOrEmpty_true v he with rfl | rfl <;> cases emp with
+    | val l =>
+      simp only [ofEmp, handleEmpty, liftPy]
+      generalize l.toPy = d
+      py_eval
+    | invalid =>
+      simp only [ofEmp, handleEmpty, ← handleInvalidV_ofInv]
+      cases hr : handleInvalidV (ofInv inv) <;> py_eval [hr]
+  · rw [if_neg he]
+    obtain ⟨h1, h2⟩ := isNoneOrEmpty_false v (by simpa using he)
+    have h3 := pyEqV_nil_of_ne v h2
+    generalize hr : pyInt parseInt v = r
+    cases r with
+    | error e =>
+      rcases pyInt_error parseInt hpi v e hr with rfl | rfl
+      · simp only [← handleInvalidV_ofInv]
+        cases hi' : handleInvalidV (ofInv inv) <;> py_eval [h1, h3, hr, hi']
+      · py_eval [h1, h3, hr, liftPy]
+    | ok n =>
+      rcases lo with _ | l
+      · rcases hi with _ | h
+        · py_eval [h1, h3, hr, ofOptInt, liftPy, clampLo, clampHi]
+        · by_cases hh : n > h <;> py_eval [h1, h3, hr, ofOptInt, liftPy, clampLo, clampHi, hh]
+      · by_cases hl : n < l
+        · rcases hi with _ | h
+          · py_eval [h1, h3, hr, ofOptInt, liftPy, clampLo, clampHi, hl]
+          · by_cases hh : l > h <;> py_eval [h1, h3, hr, ofOptInt, liftPy, clampLo, clampHi, hl, hh]
+        · rcases hi with _ | h
+          · py_eval [h1, h3, hr, ofOptInt, liftPy, clampLo, clampHi, hl]
+          · by_cases hh : n > h <;> py_eval [h1, h3, hr, ofOptInt, liftPy, clampLo, clampHi, hl, hh]
+
+/-! ### the default `emptyValue=''` of the three converters -/
+
+theorem convertPossibleValues_code_default (parseInt : Str → Except PyErr Int) (v : PyV) (ms : List String) (inv : Inv) :
+    runModule parseInt conversions "convertPossibleValues" [.py v, ofMembers ms, ofInv inv]
+      = liftPy (Conv.convertPossibleValues v ms inv (.val (.str ""))) := by
+  have h := convertPossibleValues_code_eq_model parseInt v ms inv (.val (.str ""))
+  simp only [link_6, run, convertPossibleValues_ast] at h ⊢
+  simpa [bindArgs, eval, Lit.toPy, ofEmp] using h
+
+theorem convertToIntRange_code_default (parseInt : Str → Except PyErr Int) (hpi : ValueErrorOnly parseInt) (v : PyV)
+    (lo hi : Option Int) (inv : Inv) :
+    runModule parseInt conversions "convertToIntRange" [.py v, ofOptInt lo, ofOptInt hi, ofInv inv]
+      = liftPy (Conv.convertToIntRange parseInt v lo hi inv (.val (.str ""))) := by
+  have h := convertToIntRange_code_eq_model parseInt hpi v lo hi inv (.val (.str ""))
+  simp only [link_7, run, convertToIntRange_ast] at h ⊢
+  simpa [bindArgs, eval, Lit.toPy, ofEmp] using h
+
+theorem convertToIntRangeCapped_code_default (parseInt : Str → Except PyErr Int) (hpi : ValueErrorOnly parseInt) (v : PyV)
+    (lo hi : Option Int) (inv : Inv) :
+    runModule parseInt conversions "convertToIntRangeCapped" [.py v, ofOptInt lo, ofOptInt hi, ofInv inv]
+      = liftPy (Conv.convertToIntRangeCapped parseInt v lo hi inv (.val (.str ""))) := by
+  have h := convertToIntRangeCapped_code_eq_model parseInt hpi v lo hi inv (.val (.str ""))
+  simp only [link_8, run, convertToIntRangeCapped_ast] at h ⊢
+  simpa [bindArgs, eval, Lit.toPy, ofEmp] using h
+
+/-- A call with too few arguments is a `TypeError`, not a value (the interpreter does not totalise). -/
+example (parseInt : Str → Except PyErr Int) :
+    runModule parseInt conversions "convertToIntRange" [.py (.int 1)] = .error .typeError := by
+  simp [link_7, run, convertToIntRange_ast, bindArgs]
+
+/-! ### non-vacuity: concrete runs of the dumped code through the interpreter (with the driver's `int()`), values
+off the trivial path; `pyIntOfStr` meets the hypothesis of the two range theorems -/
+
+theorem pyIntOfStr_valueErrorOnly : ValueErrorOnly pyIntOfStr := by
+  intro s err h
+  unfold pyIntOfStr at h
+  simp only at h
+  split at h
+  · cases h; rfl
+  · split at h
+    · cases h
+    · cases h; rfl
+
+example : runModule pyIntOfStr conversions "convertToIntOrNegativeOneIfUnset" [.py (.str " 12 ".toList)] = .ok (.py (.int 12)) := by
+  rfl
+example : runModule pyIntOfStr conversions "convertToIntOrNegativeOneIfUnset" [.py (.str "x".toList)] = .ok (.py (.int 0)) := by
+  rfl
+example : runModule pyIntOfStr conversions "convertToBooleanString" [.py (.str "FALSE".toList)]
+    = .ok (.py (.str "false".toList)) := by
+  rfl
+example : runModule pyIntOfStr conversions "convertBooleanStringToBoolean" [.py (.str "False".toList)]
+    = .ok (.py (.bool false)) := by
+  rfl
+example : runModule pyIntOfStr conversions "convertToPositiveInt" [.py (.str "-3".toList), .py (Lit.int 20).toPy]
+    = .ok (.py (.int 20)) := by
+  rfl
+example : runModule pyIntOfStr conversions "_handleInvalid" [ofInv (.raise "IndexSizeErrorException")]
+    = .error .indexSizeError := by
+  rfl
+example : runModule pyIntOfStr conversions "_handleInvalid" [.excInst "ValueError"] = .error .valueError := by
+  rfl
+example : runModule pyIntOfStr conversions "convertPossibleValues"
+    [.py (.str "POST".toList), ofMembers ["get", "post"], ofInv (.val (.str "get")), ofEmp .invalid]
+    = .ok (.py (.str "post".toList)) := by
+  rfl
+example : runModule pyIntOfStr conversions "convertToIntRange"
+    [.py (.str "-1".toList), ofOptInt (some 0), ofOptInt none, ofInv (.raise "IndexSizeErrorException"), ofEmp (.val (.int 0))]
+    = .error .indexSizeError := by
+  rfl
+example : runModule pyIntOfStr conversions "convertToIntRange"
+    [.py (.tokens []), ofOptInt (some 0), ofOptInt none, ofInv (.val (.int 7)), ofEmp (.val (.int 0))]
+    = .error .typeError := by
+  rfl
+example : runModule pyIntOfStr conversions "convertToIntRangeCapped"
+    [.py (.str "70000".toList), ofOptInt (some 1), ofOptInt (some 1000), ofInv (.val (.int 1)), ofEmp .invalid]
+    = .ok (.py (.int 1000)) := by
+  rfl
 
 end AHP.C19Code
